@@ -447,7 +447,9 @@ def stepEap (rt : Bool) (bs : Bytes) : String :=
         | .ok d => showWpaData d.version d.type d.length d.descriptor d.information d.keyLength d.replay d.nonce d.iv d.rsc d.id d.mic d.keyData
         | .err c => s!"err{c}"
         | .fault x => s!"FAULT {repr x}"
-      s!"cls=ok hs={hs} msg={msg} kdl={kdl} data={data}"
+      let str := match Model.checkMessage f with
+        | .ok 1 => "Message_1" | .ok 2 => "Message_2" | .ok 4 => "Message_3" | .ok 8 => "Message_4" | .ok _ => "Invalid" | _ => "FAULT"
+      s!"cls=ok hs={hs} msg={msg} str={str} kdl={kdl} data={data}"
     | .err _ => "cls=err"
     | .fault x => s!"FAULT {repr x}"
   let sp := match slicesOfCls rt bs with
@@ -457,11 +459,12 @@ def stepEap (rt : Bool) (bs : Bytes) : String :=
       let hs := Spec.isHandshake isData s.body
       let msg := if s.body.length < 107 then 16 else match Spec.messageOf (Spec.beVal s.body 13 2) with
         | some 1 => 1 | some 2 => 2 | some 3 => 4 | some 4 => 8 | _ => 16
+      let str := if msg == 1 then "Message_1" else if msg == 2 then "Message_2" else if msg == 4 then "Message_3" else if msg == 8 then "Message_4" else "Invalid"
       if hs then
         let k := Spec.keyFrame s.body
-        s!"cls=ok hs=1 msg={msg} kdl={Spec.beVal s.body 105 2} data=" ++
+        s!"cls=ok hs=1 msg={msg} str={str} kdl={Spec.beVal s.body 105 2} data=" ++
           showWpaData k.version k.type k.length k.descriptor k.information k.keyLength k.replay k.nonce k.iv k.rsc k.id k.mic k.keyData
-      else s!"cls=ok hs=-22 msg={msg} kdl=-22 data=err-22"
+      else s!"cls=ok hs=-22 msg={msg} str={str} kdl=-22 data=err-22"
   m ++ " ;; spec=" ++ sp
 
 /-! allocation-aware runs (`alloc` lines) -/
@@ -571,7 +574,9 @@ def stepEapH (σ : Nat → Bool) (rt : Bool) (bs : Bytes) : M String := do
       | .err c => pure s!"err{c}"
       | .fault x => pure s!"FAULT {repr x}")
     freeFrameH fh
-    return s!"cls=ok hs={hs} msg={msg} kdl={kdl} data={data}"
+    let str := match Model.checkMessage f with
+      | .ok 1 => "Message_1" | .ok 2 => "Message_2" | .ok 4 => "Message_3" | .ok 8 => "Message_4" | .ok _ => "Invalid" | _ => "FAULT"
+    return s!"cls=ok hs={hs} msg={msg} str={str} kdl={kdl} data={data}"
   | none =>
     freeFrameH fh
     return "cls=err"
@@ -658,6 +663,31 @@ def step (line : String) : String :=
   | ["rtp", h] =>
     match ofHex h with
     | some bs => showOutcome (fun i => "ok " ++ showRtInfo i) (Model.parseRadiotapInfo bs) ++ " ;; spec=" ++ specRtp bs
+    | none => "bad-op"
+  | ["version"] => "version=verif ;; spec=version=verif"
+  | ["ie", "rsn", h] =>
+    match ofHex h with
+    | some el =>
+      let m := match Model.getRsnInfo el with
+        | .ok i => "ok " ++ showRsn i.version (mSuite i.group) (i.pairwise.map mSuite) (i.akms.map mSuite) i.caps
+        | .err c => s!"err {c}"
+        | .fault f => s!"FAULT {repr f}"
+      let sp := match Spec.rsnDecode el with
+        | some d => "ok " ++ showRsn d.version (sSuite d.group) (d.pairwise.map sSuite) (d.akms.map sSuite) d.caps
+        | none => "refuse"
+      m ++ " ;; spec=" ++ sp
+    | none => "bad-op"
+  | ["ie", "wpa", h] =>
+    match ofHex h with
+    | some el =>
+      let m := match Model.getWpaInfo el with
+        | .ok i => "ok " ++ showWpa i.version (mSuite i.multicast) (i.unicast.map mSuite) (i.akms.map mSuite)
+        | .err c => s!"err {c}"
+        | .fault f => s!"FAULT {repr f}"
+      let sp := match Spec.wpaDecode el with
+        | some d => "ok " ++ showWpa d.version (sSuite d.multicast) (d.unicast.map sSuite) (d.akms.map sSuite)
+        | none => "refuse"
+      m ++ " ;; spec=" ++ sp
     | none => "bad-op"
   | ["rssi", h] =>
     match ofHex h with
